@@ -32,7 +32,8 @@ RULE = ("part 'memory': 2-4 threads run short op lists (write with the thread's 
         "acquire in the code under test expires only when nothing else can run) or has serializers raising a non-Exception in the middle of write(). "
         "part 'loggersched': two threads make the first-ever writes of one MessageType through the production Logger to a registered "
         "destination while (odd cases) a third adds global fields, LINE events on _output.py and _validation.py, all 1-preemption schedules: each "
-        "message delivered exactly once with every field serialized, nothing raised, nothing else delivered. part 'twodefaults' (fresh interpreter without orjson, so eliot encodes with the standard library's json as on PyPy): two "
+        "message delivered exactly once with every field serialized, nothing raised, nothing else delivered. part 'lockorder': a destination taking an application lock, one thread logging while it holds that lock, 1-2 others logging: "
+        "no schedule deadlocks (the library holds no lock of its own around destination calls). part 'twodefaults' (fresh interpreter without orjson, so eliot encodes with the standard library's json as on PyPy): two "
         "FileDestinations with different json_default functions, one thread each, LINE events on eliot/json.py too, all 1-preemption schedules: every "
         "line is encoded by its own destination's default. part 'filestress': 8-16 OS-scheduled threads (switch interval 1e-6) write to one real file (buffered, unbuffered, text): "
         "every line one JSON object, multiset of (thread, seq) == written (per-thread order additionally for binary files). non-trivial = schedule whose "
@@ -52,6 +53,7 @@ def plan(tier, seed):
     specs += [{"part": "memory2p", "seed": seed, "i": j, "tier": tier, "chunk": j, "nchunks": nch} for j in range(nch)]
     specs += [{"part": "filesched", "seed": seed, "i": i, "tier": tier} for i in range(8 if tier == "quick" else 60)]
     specs += [{"part": "loggersched", "seed": seed, "i": i, "tier": tier} for i in range(6 if tier == "quick" else 48)]
+    specs += [{"part": "lockorder", "seed": seed, "i": i, "tier": tier} for i in range(2 if tier == "quick" else 4)]
     specs += [{"part": "twodefaults", "seed": seed, "i": 0, "tier": tier, "interpreter": "no_orjson"}]
     specs += [{"part": "filestress", "seed": seed, "i": i, "tier": tier} for i in range(6 if tier == "quick" else 36)]
     return specs
@@ -442,6 +444,69 @@ def run_filesched(spec, res):
         execute(p)
 
 
+# --------------------------------------------------------------------------- destination and application share a lock
+
+
+def run_lockorder(spec, res):
+    """A destination that takes an application lock (re-entrant), one thread that logs while holding that lock, another that
+    just logs: the library holds no lock of its own while it calls destinations, so no schedule deadlocks."""
+    from eliot import add_destinations, remove_destination, log_message
+    names = ["T0", "T1"] + (["T2"] if spec["i"] % 2 else [])
+    c = res["counters"]
+
+    def execute(plan_):
+        U = sched.SchedLock(True)
+        got = []
+
+        def dest(m):
+            with U:
+                got.append(m.get("n"))
+        add_destinations(dest)
+
+        def holder():
+            with U:
+                log_message(message_type="lo:m", n="holder-1")
+                log_message(message_type="lo:m", n="holder-2")
+
+        def plain(k):
+            def run():
+                log_message(message_type="lo:m", n="plain-%d" % k)
+            return run
+        workers = {"T0": holder, "T1": plain(1)}
+        if "T2" in names:
+            workers["T2"] = plain(2)
+        try:
+            st, errs = sched.run_schedule(plan_, workers, timeout=60.0)
+        finally:
+            remove_destination(dest)
+        problems = ["%s raised %r" % (n, e) for n, e in errs.items()]
+        if st["deadlock"]:
+            problems.append("a thread logging while it holds an application lock and a destination that takes that lock deadlocked: %s" % st["deadlock"])
+        elif st["aborted"]:
+            res["inconclusive"] = "schedule abandoned: %s" % st["aborted"]
+        else:
+            want = sorted(["holder-1", "holder-2"] + ["plain-%d" % k for k in range(1, len(names))])
+            if sorted(got) != want:
+                problems.append("delivered %s, logged %s" % (sorted(got), want))
+        res["evals"] += 1
+        c["lock_order_schedules_run"] = c.get("lock_order_schedules_run", 0) + 1
+        res["sets"]["interleavings"].append(sched.trace_hash(st))
+        for nm, k, loc in st["fired"]:
+            res["sets"]["preemption_lines"].append(loc)
+        if st["fired"]:
+            res["nontrivial"].append(sched.trace_hash(st))
+        if problems and len(res["violations"]) < 3:
+            res["violations"].append({"msg": problems[0], "mech": None, "detail": {"part": "lockorder", "plan": plan_, "problems": problems[:4]}})
+        return st
+
+    for order in itertools.permutations(names):
+        base = execute({"order": list(order), "changes": []})
+        for p in sched.one_preemption_plans(list(order), base["events"]):
+            execute(p)
+            if len(res["violations"]) >= 3:
+                return
+
+
 # --------------------------------------------------------------------------- two encoders at once (interpreter without orjson)
 
 
@@ -676,7 +741,7 @@ def run_case(spec):
         run_twodefaults(spec, res)
         return res
     from eliot import _validation
-    n = sched.instrument([_output, _validation] if spec["part"] in ("memory", "memory2p", "loggersched") else [_output])
+    n = sched.instrument([_output, _validation] if spec["part"] in ("memory", "memory2p", "loggersched", "lockorder") else [_output])
     res["counters"]["code_objects_instrumented"] = n
     if spec["part"] == "memory2p":
         run_memory2p(spec, res)
@@ -684,6 +749,8 @@ def run_case(spec):
         run_memory(spec, res)
     elif spec["part"] == "loggersched":
         run_loggersched(spec, res)
+    elif spec["part"] == "lockorder":
+        run_lockorder(spec, res)
     else:
         run_filesched(spec, res)
     return res
